@@ -22,7 +22,13 @@ suite = "--no-suite" not in sys.argv
 d = tempfile.mkdtemp(prefix="vf-seed-")
 meta = {"name": name, "property": pid, "checks_run": {}, "needs": "", "ran": []}
 try:
-    subprocess.run(["git", "-C", "/repo", "worktree", "add", "-q", "--detach", d + "/wt", "HEAD"], check=True)
+    import time
+    for attempt in range(8):      # concurrent `git worktree add` calls contend for a lock
+        if subprocess.run(["git", "-C", "/repo", "worktree", "add", "-q", "--detach", d + "/wt", "HEAD"]).returncode == 0:
+            break
+        time.sleep(1 + attempt)
+    else:
+        raise SystemExit("git worktree add failed")
     wt = d + "/wt"
     patch = os.path.abspath(os.path.join(src, "patch.diff"))
     demo = os.path.abspath(os.path.join(src, "demo.py"))
